@@ -67,7 +67,10 @@ for h in ("tri", "pstrain", "gps", "axis", "pstress", "agpstrain"):
         app("gen_rotg_" + h, s, r), N, R, N, lst(s)), "prove gen_rotg_%s." % h)
     st("gen_rotf_%s_meaning" % h, "gen", fa(s, r) + "%s = flat_s %d (rot2 (tr2 %s) (full_s %d %s))" % (
         app("gen_rotf_" + h, s, r), N, R, N, lst(s)), "prove gen_rotf_%s." % h)
-    if N < 3:
+    if h in ("gps", "axis", "pstress"):
+        st("gen_rotk_%s_same_as_pstrain" % h, "gen", fa(c, r) + "%s = %s" % (app("gen_rotk_" + h, c, r), app("gen_rotk_pstrain", c, r)),
+           "intros; unfold gen_rotk_%s, gen_rotk_pstrain; spec_red; list_eq." % h)
+    elif N < 3:
         st("gen_rotk_%s_index" % h, "gen", fa(c, r) + "%s = flat_A %d (rot4 (tr2 %s) (full_A %d %s))" % (
             app("gen_rotk_" + h, c, r), N, R, N, lst(c)), "prove gen_rotk_%s." % h)
     else:
@@ -90,7 +93,7 @@ for h in ("tri", "pstrain"):
     N = HYP[h]
     n = S[N]
     r, e = vs("r", 9), vs("e", n)
-    st("gen_%s_round_trip" % h, "orth",
+    st("gen_%s_round_trip" % h, "orth" if h == "pstrain" else "orth3",
        fa(e, r) + "orth (full_r %d %s) ->\n  let em := %s in\n  %s = %s" % (
            N, lst(r), app("gen_rotg_" + h, e, r), app("gen_rotf_" + h, nths("em", n), r), lst(e)),
        "intros until 0; intro H; orth_hyps H; unfold gen_rotg_%s, gen_rotf_%s; spec_red; list_eq_orth." % (h, h))
@@ -114,7 +117,7 @@ for (pre, ng, grp) in (("gen", 1, "arr"), ("tg", 2, "arr2")):
            "prove tg_rotg_pstrain.")
         st("tg_rotf_pstrain_meaning", "arr", fa(s, r) + "%s = %s" % (app("tg_rotf_pstrain", s, r), arr_spec2(2, "(tr2 %s)" % R2, lst(s), [0, 4], 4)),
            "prove tg_rotf_pstrain.")
-        st("tg_rotk_pstrain_index", "arr", fa(c, r) + "%s = %s" % (app("tg_rotk_pstrain", c, r), arr_spec4(2, "(tr2 %s)" % R2, lst(c), [0, 16], 16)),
+        st("tg_rotk_pstrain_index", "rot4_3", fa(c, r) + "%s = %s" % (app("tg_rotk_pstrain", c, r), arr_spec4(2, "(tr2 %s)" % R2, lst(c), [0, 16], 16)),
            "prove tg_rotk_pstrain.")
     s, c = vs("s", 8 * ng), vs("c", 32 * ng)
     offs2 = [4 * k for k in range(2 * ng)]
@@ -123,7 +126,7 @@ for (pre, ng, grp) in (("gen", 1, "arr"), ("tg", 2, "arr2")):
        "prove %s_arrg_pstrain." % pre)
     st("%s_arrf_pstrain_meaning" % pre, grp, fa(s, r) + "%s = %s" % (app(pre + "_arrf_pstrain", s, r), arr_spec2(2, "(tr2 %s)" % R2, lst(s), offs2, 4)),
        "prove %s_arrf_pstrain." % pre)
-    st("%s_arrk_pstrain_index" % pre, grp, fa(c, r) + "%s = %s" % (app(pre + "_arrk_pstrain", c, r), arr_spec4(2, "(tr2 %s)" % R2, lst(c), offs4, 16)),
+    st("%s_arrk_pstrain_index" % pre, "arr" if ng == 1 else "rot4_3", fa(c, r) + "%s = %s" % (app(pre + "_arrk_pstrain", c, r), arr_spec4(2, "(tr2 %s)" % R2, lst(c), offs4, 16)),
        "prove %s_arrk_pstrain." % pre)
 
 # ---------------------------------------------------------------- (b) Hooke-type responses
@@ -147,17 +150,17 @@ st("isosig_pstress_alt_szz", "iso", fa(E, nu, e4) + "nthR %s 2 = 0" % app("isosi
 st("isosig_pstress_alt_is_3D_condensed", "iso",
    fa(E, nu, e4) + ISO_H + "1 - nu <> 0 ->\n  let sg := %s in\n  let ezz := - nu / (1 - nu) * (e0 + e1) in\n  %s = [nthR sg 0; nthR sg 1; 0; nthR sg 3; 0; 0]" % (
        app("isosig_pstress_alt", E, nu, e4), app("isosig_tri", E, nu, ["e0", "e1", "ezz", "e3", "0", "0"])),
-   "intros; unfold isosig_tri, isosig_pstress_alt; spec_red; list_eq.")
+   "intros; nzprod; unfold isosig_tri, isosig_pstress_alt; spec_red; list_eq.")
 # isotropy: the response commutes with rotations
 r = vs("r", 9)
 st("hooke_tri_isotropic", "orth",
-   fa(E, nu, e6, r) + "orth (full_r 3 %s) ->\n  let sg := %s in\n  let er := %s in\n  %s = %s" % (
+   fa(E, nu, e6, r) + ISO_H + "orth (full_r 3 %s) ->\n  let sg := %s in\n  let er := %s in\n  %s = %s" % (
        lst(r), app("isosig_tri", E, nu, e6), app("cb2_3", e6, r),
        app("cb2_3", nths("sg", 6), r), app("isosig_tri", E, nu, nths("er", 6))),
    "intros until 0; intro H; orth_hyps H; unfold isosig_tri, cb2_3; spec_red; list_eq_orth.")
-for h in ("pstrain", "pstress_alt"):
+for h in ("pstrain",):
     st("hooke_%s_isotropic_in_plane" % h, "orth",
-       fa(E, nu, e4, r) + "orth (full_r 2 %s) ->\n  let sg := %s in\n  let er := %s in\n  %s = %s" % (
+       fa(E, nu, e4, r) + ISO_H + "orth (full_r 2 %s) ->\n  let sg := %s in\n  let er := %s in\n  %s = %s" % (
            lst(r), app("isosig_" + h, E, nu, e4), app("cb2_2", e4, r),
            app("cb2_2", nths("sg", 4), r), app("isosig_" + h, E, nu, nths("er", 4))),
        "intros until 0; intro H; orth_hyps H; unfold isosig_%s, cb2_2; spec_red; list_eq_orth." % h)
@@ -190,28 +193,59 @@ with open(os.path.join(HERE, "coq", "C44Statements.v"), "w") as f:
 
 HEAD = ("From Coq Require Import Reals List Lra.\nFrom VLib Require Import RealExtra.\n"
         "From C44 Require Import C44Spec C44_gen C44Statements C44Tactics.\nImport ListNotations.\nLocal Open Scope R_scope.\n\n")
-FILES = {"rot": "C44ProofsRot.v", "rot4_1": "C44ProofsRot.v", "rot4_2": "C44ProofsRot.v", "rot4_3": "C44ProofsRot4.v",
-         "gen": "C44ProofsGen.v", "arr": "C44ProofsGen.v", "arr2": "C44ProofsArr2.v", "orth": "C44ProofsOrth.v",
-         "iso": "C44ProofsHooke.v", "ort": "C44ProofsHooke.v"}
-PROPS = {"C44ProofsRot.v": "Properties_C44.v", "C44ProofsGen.v": "Properties_C44.v", "C44ProofsOrth.v": "Properties_C44.v",
-         "C44ProofsHooke.v": "Properties_C44.v", "C44ProofsRot4.v": "Properties_C44_full.v", "C44ProofsArr2.v": "Properties_C44_arrays.v"}
+FILES = {"rot": "C44ProofsA.v", "rot4_1": "C44ProofsA.v", "rot4_2": "C44ProofsA.v", "rot4_3": "C44ProofsRot4.v",
+         "gen": "C44ProofsB.v", "arr": "C44ProofsB.v", "arr2": "C44ProofsArr2.v", "orth": "C44ProofsOrth.v", "orth3": "C44ProofsOrth3.v",
+         "iso": "C44ProofsA.v", "ort": "C44ProofsA.v"}
+PROPS = {"C44ProofsA.v": "Properties_C44.v", "C44ProofsB.v": "Properties_C44.v", "C44ProofsOrth.v": "Properties_C44.v",
+         "C44ProofsRot4.v": "Properties_C44_full.v", "C44ProofsOrth3.v": "Properties_C44_full.v", "C44ProofsArr2.v": "Properties_C44_arrays.v"}
 byfile = {}
 for (name, grp, tier, text, proof) in stmts:
     byfile.setdefault(FILES[grp], []).append((name, proof))
 for fn, items in byfile.items():
+    if fn in ("C44ProofsOrth.v", "C44ProofsOrth3.v"):
+        continue  # hand-written
     with open(os.path.join(HERE, "coq", fn), "w") as f:
         f.write("(* C44: proofs (skeleton written by mkcoq.py; shape-independent tactics of C44Tactics.v) *)\n" + HEAD)
         for (name, proof) in items:
             f.write("Lemma %s_proof : %s_ok.\nProof. unfold %s_ok. %s Qed.\n\n" % (name, name, name, proof))
-byprop = {}
-for fn, items in byfile.items():
-    byprop.setdefault(PROPS[fn], []).append((fn, items))
-for pf, lst_ in byprop.items():
+def bundle_of(name):
+    import re
+    rules = [(r"fromrot_", "fromRotationMatrix_is_the_rotation_operator"),
+             (r"cb2_|app_", "change_basis_stensor_is_QtSQ"),
+             (r"cb4_[12]_", "change_basis_st2tost2_index_notation"),
+             (r"cb4_3_|gen_rotk_tri_index|tg_rotk|tg_arrk", "fourth_order_rotation_3D_and_block_offsets"),
+             (r"gen_rotg_", "emitted_rotateGradients_is_QtEQ"),
+             (r"gen_rotf_", "emitted_rotateThermodynamicForces_is_QSQt"),
+             (r"gen_rotk_", "emitted_rotateTangentOperatorBlocks_index_notation"),
+             (r"gen_\w+_global_response", "emitted_rotations_give_the_global_response"),
+             (r"gen_arr|tg_rot[gf]", "emitted_rotations_offsets_single_gradient_arrays"),
+             (r"tg_arr[gf]", "emitted_rotations_arrays_two_gradients"),
+             (r"round_trip", "emitted_rotations_round_trip"),
+             (r"isotropic", "hooke_response_commutes_with_rotations"),
+             (r"isoD_tri|isosig_tri_meaning", "isotropic_stiffness_is_hooke"),
+             (r"is_3D_restricted", "hooke_hypothesis_consistency"),
+             (r"pstress", "plane_stress_szz_zero_and_condensation")]
+    for pat, b in rules:
+        if re.match(pat, name) or re.search(pat, name) and pat in ("round_trip", "isotropic", "is_3D_restricted", "pstress"):
+            return b
+    raise SystemExit("no bundle for " + name)
+
+
+bundles = {}
+for (name, grp, tier, text, proof) in stmts:
+    pf = PROPS[FILES[grp]]
+    bundles.setdefault((pf, bundle_of(name)), []).append((name, FILES[grp]))
+for pf in sorted(set(k[0] for k in bundles)):
     with open(os.path.join(HERE, "coq", pf), "w") as f:
-        f.write("(* C44: property statements -- only `exact` of proved lemmas and Print Assumptions *)\n"
+        files = sorted(set(fn[:-2] for k, v in bundles.items() if k[0] == pf for (_, fn) in v))
+        f.write("(* C44: property statements -- conjunctions of the obligations of C44Statements.v, `exact` of proved lemmas,\n"
+                "   Print Assumptions *)\n"
                 "From Coq Require Import Reals List.\nFrom VLib Require Import RealExtra.\n"
-                "From C44 Require Import C44Spec C44_gen C44Statements %s.\n\n" % " ".join(fn[:-2] for fn, _ in lst_))
-        for fn, items in lst_:
-            for (name, proof) in items:
-                f.write("Theorem C44_%s : %s_ok.\nProof. exact %s_proof. Qed.\nPrint Assumptions C44_%s.\n\n" % (name, name, name, name))
-print("wrote", len(stmts), "statements")
+                "From C44 Require Import C44Spec C44_gen C44Statements %s.\n\n" % " ".join(files))
+        for (p, b), items in bundles.items():
+            if p != pf:
+                continue
+            f.write("Theorem C44_%s :\n  %s.\nProof.\n  exact %s.\nQed.\nPrint Assumptions C44_%s.\n\n" % (
+                b, " /\\\n  ".join(n + "_ok" for n, _ in items),
+                "".join("(conj %s_proof " % n for n, _ in items[:-1]) + items[-1][0] + "_proof" + ")" * (len(items) - 1), b))
+print("wrote", len(stmts), "statements in", len(bundles), "theorems")
